@@ -21,7 +21,7 @@ def run(tier, seed):
                            {"cfg": "MC_DistHeader_noseg", "result": "counterexample to Resolved (reader keyed by index only), as expected"}]
     # (a) encoder side
     cp = os.path.join(lib.outdir(PID), "cases.ndjson")
-    r = lib.tlc("gen/Gen_DistHeader.tla", f"gen/Gen_DistHeader_{size}.cfg", PID, "gen", workers=1, env={"MODE": "cases", "OUT": cp})
+    r = lib.tlc("gen/Gen_DistHeader.tla", f"gen/Gen_DistHeader_{size}.cfg", PID, "gen", workers=1, env={"MODE": "cases", "OUT": cp, "OUT_LOCAL": os.path.join(lib.outdir(PID), "local_cases.ndjson")})
     edges = r.printed()
     if r.rc != 0 or not edges:
         raise lib.ToolError("DistHeader generator failed")
